@@ -246,14 +246,30 @@ impl CheckpointManager {
 
     /// Rollback to a checkpoint by ID or name.
     pub async fn rollback(&self, id_or_name: &str, store: &TensorStore) -> Result<()> {
-        let state = {
-            let blob = self.blob.lock().await;
-            CheckpointStorage::load(id_or_name, &blob).await?
-        };
+        let blob = self.blob.lock().await;
+        let state = CheckpointStorage::load(id_or_name, &blob).await?;
+
+        // Checkpoints are blob artifacts kept in the very store that is about to be replaced.
+        // They are not part of the rolled-back state: carry the blob namespace over unchanged.
+        let keep: Vec<_> = store
+            .scan("_blob:")
+            .into_iter()
+            .filter_map(|k| store.get(&k).ok().map(|v| (k, v)))
+            .collect();
 
         store
             .restore_from_bytes(&state.store_snapshot)
             .map_err(|e| CheckpointError::Snapshot(e.to_string()))?;
+
+        for k in store.scan("_blob:") {
+            let _ = store.delete(&k);
+        }
+        for (k, v) in keep {
+            store
+                .put(k, v)
+                .map_err(|e| CheckpointError::Snapshot(e.to_string()))?;
+        }
+        drop(blob);
 
         Ok(())
     }
